@@ -116,6 +116,12 @@ func init() {
 		}
 		return func(in map[string]any) string {
 			op := str(in, "op")
+			if op == "racefinish" {
+				if reactor.VerifRunning() {
+					reactor.Stop()
+				}
+				return reactorRaceFinish(num(in, "rounds", 2000))
+			}
 			if op == "stress" {
 				if reactor.VerifRunning() {
 					reactor.Stop()
@@ -188,7 +194,7 @@ func init() {
 				default:
 					return "empty"
 				}
-			case "state":
+			case "state", "drained":
 				t := reactor.GetStateTable()
 				sort.Strings(t)
 				return fmt.Sprintf("tokens=%d table=%s", reactor.VerifTokens(), strings.Join(t, ","))
@@ -308,4 +314,63 @@ func reactorStress(tokens, producers, consumers, seeds int, seed int64) string {
 	}
 	return fmt.Sprintf("%s finished=%d/%d tokens-at-end=%d table-at-end=%d max-in-flight=%d/%d errors=%d/%d accepted-after-freeze=%d",
 		status, finished.Load(), total, tok, tab, maxTable.Load(), tokens, fbErr.Load(), finErr.Load(), accepted)
+}
+
+// reactorRaceFinish: two goroutines finish the same tracked seed at the same moment; exactly one
+// call may succeed and exactly one token may be released, every round.
+func reactorRaceFinish(rounds int) string {
+	out := make(chan *models.Item)
+	if err := reactor.Start(2, out); err != nil {
+		return "start-failed " + err.Error()
+	}
+	defer reactor.Stop()
+	mk := func(id string) *models.Item {
+		u := &models.URL{Raw: "http://h.example/" + id}
+		_ = u.Parse()
+		return models.NewItem(id, u, "")
+	}
+	keeper := mk("keeper")
+	if err := reactor.ReceiveInsert(keeper); err != nil {
+		return "insert-failed"
+	}
+	<-out
+	double := 0
+	for r := 0; r < rounds; r++ {
+		it := mk(fmt.Sprintf("r%d", r))
+		if err := reactor.ReceiveInsert(it); err != nil {
+			return "insert-failed"
+		}
+		<-out
+		var wg sync.WaitGroup
+		var okCount atomic.Int64
+		start := make(chan struct{})
+		for g := 0; g < 2; g++ {
+			wg.Add(1)
+			go func() {
+				defer wg.Done()
+				<-start
+				if reactor.MarkAsFinished(it) == nil {
+					okCount.Add(1)
+				}
+			}()
+		}
+		close(start)
+		done := make(chan struct{})
+		go func() { wg.Wait(); close(done) }()
+		select {
+		case <-done:
+		case <-time.After(3 * time.Second):
+			return fmt.Sprintf("bad round=%d a finish call blocked (token pool drained)", r)
+		}
+		if okCount.Load() != 1 {
+			double++
+		}
+		if reactor.VerifTokens() != 1 {
+			return fmt.Sprintf("bad round=%d successes=%d tokens-in-use=%d tracked=%d (the keeper seed alone is tracked)", r, okCount.Load(), reactor.VerifTokens(), len(reactor.GetStateTable()))
+		}
+	}
+	if double != 0 {
+		return fmt.Sprintf("bad double-finish-accepted=%d", double)
+	}
+	return "ok"
 }
